@@ -1,3 +1,4 @@
+import os
 import re
 from contextlib import contextmanager
 
@@ -86,6 +87,46 @@ def remove_unused_labels(code: str) -> str:
         result.append(line)
 
     return "\n".join(result)
+
+
+def _verif_reg(x):
+    # virtual / physical register name carried by an operand, else None
+    if isinstance(x, IC10Operand):
+        x = x.value
+    if isinstance(x, IC10Register) and isinstance(x.code_expr, str):
+        return x.code_expr
+    return None
+
+
+def _verif_snapshot(gather):
+    """PYTRAPIC_VERIF=1 only: per instruction of the final list, before register
+    assignment: op, virtual names of output / inputs, owning function, source line."""
+    owner = {}
+    for fname, func in gather.data.functions.items():
+        for line in func.code:
+            owner[id(line)] = fname
+    snap = []
+    for line in gather.code:
+        node = line.node
+        snap.append(
+            dict(
+                op=line.op,
+                out=_verif_reg(line.output),
+                ins=[_verif_reg(i) for i in line.inputs],
+                owner=owner.get(id(line)),
+                node=type(node).__name__ if node is not None else None,
+                lineno=getattr(node, "lineno", None),
+            )
+        )
+    return snap
+
+
+def _verif_finish(gather, snap):
+    # after register assignment: the physical names now found on the same objects
+    for line, entry in zip(gather.code, snap):
+        entry["pout"] = _verif_reg(line.output)
+        entry["pins"] = [_verif_reg(i) for i in line.inputs]
+    gather.data.result["_verif"] = snap
 
 
 class CompilerPassGenerateCode(CompilerPass):
@@ -1164,8 +1205,13 @@ class CompilerPassGatherCode(CompilerPass):
                 for line in func.code:
                     self.code.append(line)
 
+        verif = os.environ.get("PYTRAPIC_VERIF") == "1"
+        if verif:
+            verif_snapshot = _verif_snapshot(self)
         self.used_registers = assign_registers(self.data, self.code)
         self.get_code()
+        if verif:
+            _verif_finish(self, verif_snapshot)
 
     def remove_labels(
         self, code, relative_numbers: bool = False, keep_labels: set | None = None
